@@ -13,13 +13,28 @@ PROVED, for every root r, puzzle text and variable numbering:
  * `row_cells` / `col_cells`: the row and column lists are literally the cells of the row /
    column.
 
-FULL STATEMENTS (not proved): `sudoku_sound` / `sudoku_complete` / one-to-one correspondence
-with completed grids.  Decided by the correspondence run for r ≤ 2: the real output equals
-the model's formula; every completed grid keeping the givens (all of them, by backtracking)
-satisfies it, every single-cell change of a solution falsifies it, and cells with no or two
-numbers are rejected; r = 3: the output equals the model's formula.
+ * `sudoku_models` (the FULL STATEMENT): for givens that are digits between 1 and r², an
+   assignment satisfies the emitted formula exactly when it encodes (`_c_is_d` true iff cell c
+   holds d) a completed grid with every number 1..r² once in every row, column and r×r box that
+   keeps the givens (`ValidGrid`);
+ * `grid_unique`, `asg_unique`, `grid_has_model`: the correspondence is one-to-one — an assignment
+   encodes at most one grid, a grid fixes the assignment on every variable of the formula, and
+   every grid has its assignment when distinct (cell, number) pairs are distinct variables;
+ * `sudoku_solved`: the evaluator terminates on the emitted formula and the diagram it returns
+   is true exactly on the encodings of the solutions (composition with C01).
+
+"Non-digit characters are blanks and whitespace is ignored" is the harness/driver's reading of
+the text into `List (Option Nat)` (by characters, `char::is_whitespace` removed) — checked by
+the correspondence run on puzzles with ASCII, multi-byte and full-width-digit blanks.
+
+Not proved: that the bytes the binary writes parse to `Sudoku.formula` (tree equality per
+generated puzzle in the correspondence run, r ≤ 3), and the equivalence of `ValidGrid` with the
+executable oracle `Puzzles.isSudoku` (which selects the cells of a box by their box index
+instead of enumerating them); for r ≤ 2 the run compares against all solutions found by
+backtracking.
 -/
 import Rsbdd.Proofs.GenSem
+import Rsbdd.Proofs.GenGood
 import Rsbdd.Model.Gen.Sudoku
 
 namespace Rsbdd.C17
@@ -111,5 +126,271 @@ theorem box_cells_inj (r i j l l' : Nat) (hi : i < r) (hj : j < r) (hl : l < r *
 example : (boxConstraints 2 (fun c d => c * 16 + d)).head? =
     some (exactlyOne (fun c d => c * 16 + d) [(0, 1), (1, 1), (4, 1), (5, 1)]) := by rfl
 example : hints 2 [some 3, none, some 1] (fun c d => c * 16 + d) = [.var 3, .var 33] := by rfl
+
+
+/-- a completed grid of root `r` keeping the givens: `g c` is the number in cell `c`
+(row-major); every number 1..r² exactly once in every row, column and r×r box -/
+def ValidGrid (r : Nat) (givens : List (Option Nat)) (g : Nat → Nat) : Prop :=
+  (∀ c, c < r * r * (r * r) → 1 ≤ g c ∧ g c ≤ r * r) ∧
+  (∀ i d0, i < r * r → d0 < r * r →
+    ((List.range (r * r)).filter (fun j => g (i * (r * r) + j) == d0 + 1)).length = 1) ∧
+  (∀ i d0, i < r * r → d0 < r * r →
+    ((List.range (r * r)).filter (fun j => g (j * (r * r) + i) == d0 + 1)).length = 1) ∧
+  (∀ bi bj d0, bi < r → bj < r → d0 < r * r →
+    ((List.range (r * r)).filter (fun l => g ((bi * r + l / r) * (r * r) + (bj * r + l % r)) == d0 + 1)).length = 1) ∧
+  (∀ c d, c < r * r * (r * r) → givens[c]? = some (some d) → g c = d)
+
+/-- σ encodes g: variable `_c_is_d` is true exactly when cell c holds d -/
+def Encodes (r : Nat) (vid : Nat → Nat → Nat) (σ : Asg) (g : Nat → Nat) : Prop :=
+  ∀ c d0, c < r * r * (r * r) → d0 < r * r → (σ (vid c (d0 + 1)) = true ↔ g c = d0 + 1)
+
+theorem cell_lt {sq a b : Nat} (ha : a < sq) (hb : b < sq) : a * sq + b < sq * sq := by
+  have h1 : (a + 1) * sq ≤ sq * sq := Nat.mul_le_mul_right sq ha
+  rw [Nat.succ_mul] at h1; omega
+
+theorem box_pos_lt {r bi l : Nat} (hbi : bi < r) (hl : l < r * r) : bi * r + l / r < r * r := by
+  have hr : 0 < r := by omega
+  have hlr : l / r < r := (Nat.div_lt_iff_lt_mul hr).mpr hl
+  have : (bi + 1) * r ≤ r * r := Nat.mul_le_mul_right r hbi
+  rw [Nat.succ_mul] at this; omega
+
+theorem box_pos_lt' {r bj l : Nat} (hbj : bj < r) (_hl : l < r * r) : bj * r + l % r < r * r := by
+  have hr : 0 < r := by omega
+  have hlm : l % r < r := Nat.mod_lt l hr
+  have : (bj + 1) * r ≤ r * r := Nat.mul_le_mul_right r hbj
+  rw [Nat.succ_mul] at this; omega
+
+/-- the index the generator writes for position l of box (i, j) is the cell in row i·r + l/r,
+column j·r + l%r -/
+theorem box_index (r i j l : Nat) :
+    (i * r) * (r * r) + (j * r) + ((l / r) * (r * r) + (l % r)) = (i * r + l / r) * (r * r) + (j * r + l % r) := by
+  rw [Nat.add_mul]; omega
+
+/-- what the emitted constraints say, list by list -/
+theorem constraints_iff (r : Nat) (vid : Nat → Nat → Nat) (σ : Asg) :
+    (∀ f ∈ cellConstraints r vid ++ rowColConstraints r vid ++ boxConstraints r vid, Sem f FEnv.empty σ) ↔
+      (∀ c, c < r * r * (r * r) → trueCount ((List.range (r * r)).map (fun j => vid c (j + 1))) σ = 1) ∧
+      (∀ i d0, i < r * r → d0 < r * r →
+        trueCount ((List.range (r * r)).map (fun j => vid (i * (r * r) + j) (d0 + 1))) σ = 1) ∧
+      (∀ i d0, i < r * r → d0 < r * r →
+        trueCount ((List.range (r * r)).map (fun j => vid (j * (r * r) + i) (d0 + 1))) σ = 1) ∧
+      (∀ bi bj d0, bi < r → bj < r → d0 < r * r →
+        trueCount ((List.range (r * r)).map
+          (fun l => vid ((bi * r + l / r) * (r * r) + (bj * r + l % r)) (d0 + 1))) σ = 1) := by
+  simp only [List.mem_append, or_imp, forall_and, cellConstraints, rowColConstraints, boxConstraints,
+    List.mem_map, List.mem_flatMap, List.mem_range, List.mem_cons, List.not_mem_nil, or_false,
+    forall_exists_index, and_imp, forall_apply_eq_imp_iff₂, sem_exactlyOne, List.map_map, Function.comp_def,
+    box_index, and_assoc]
+  constructor
+  · rintro ⟨h1, h2, h3, h4⟩
+    refine ⟨h1, fun i d0 hi hd => ?_, fun i d0 hi hd => ?_, fun bi bj d0 hbi hbj hd => ?_⟩
+    · have := h2 _ i hi d0 hd rfl
+      simpa only [sem_exactlyOne, List.map_map, Function.comp_def] using this
+    · have := h3 _ i hi d0 hd rfl
+      simpa only [sem_exactlyOne, List.map_map, Function.comp_def] using this
+    · have := h4 _ bi hbi bj hbj d0 hd rfl
+      simpa only [sem_exactlyOne, List.map_map, Function.comp_def] using this
+  · rintro ⟨h1, h2, h3, h4⟩
+    refine ⟨h1, ?_, ?_, ?_⟩
+    · rintro x i hi d0 hd rfl
+      simpa only [sem_exactlyOne, List.map_map, Function.comp_def] using h2 i d0 hi hd
+    · rintro x i hi d0 hd rfl
+      simpa only [sem_exactlyOne, List.map_map, Function.comp_def] using h3 i d0 hi hd
+    · rintro x bi hbi bj hbj d0 hd rfl
+      simpa only [sem_exactlyOne, List.map_map, Function.comp_def] using h4 bi bj d0 hbi hbj hd
+
+
+/-- under an encoding, counting true variables of one number along a list of cells is counting
+the cells that hold the number -/
+theorem count_transfer {r : Nat} {vid : Nat → Nat → Nat} {σ : Asg} {g : Nat → Nat} (henc : Encodes r vid σ g)
+    (cellf : Nat → Nat) (hlt : ∀ j, j < r * r → cellf j < r * r * (r * r)) (d0 : Nat) (hd : d0 < r * r) :
+    trueCount ((List.range (r * r)).map (fun j => vid (cellf j) (d0 + 1))) σ =
+      ((List.range (r * r)).filter (fun j => g (cellf j) == d0 + 1)).length := by
+  rw [trueCount_map]
+  congr 1
+  apply List.filter_congr
+  intro j hj
+  have hj' : j < r * r := by simpa using hj
+  rw [Bool.eq_iff_iff]
+  simp only [beq_iff_eq]
+  exact henc (cellf j) d0 (hlt j hj') hd
+
+theorem sem_hints_iff (r : Nat) (puzzle : List (Option Nat)) (vid : Nat → Nat → Nat) (σ : Asg) :
+    (∀ f ∈ hints r puzzle vid, Sem f FEnv.empty σ) ↔
+      ∀ i d, i < r * r * (r * r) → puzzle[i]? = some (some d) → σ (vid i d) = true := by
+  constructor
+  · intro h i d hi hp
+    have := h _ ((hints_spec r puzzle vid _).mpr ⟨i, d, hi, hp, rfl⟩)
+    simpa [Sem, FEnv.empty] using this
+  · intro h f hf
+    obtain ⟨i, d, hi, hp, rfl⟩ := (hints_spec r puzzle vid f).mp hf
+    simpa [Sem, FEnv.empty] using h i d hi hp
+
+/-- C17, the correspondence: an assignment satisfies the emitted formula exactly when it encodes a
+completed grid that keeps the givens and has every number once per row, column and box.
+`hscope`: the givens are digits between 1 and r². -/
+theorem sudoku_models (r : Nat) (puzzle : List (Option Nat)) (vid : Nat → Nat → Nat) (σ : Asg)
+    (hscope : ∀ c d, c < r * r * (r * r) → puzzle[c]? = some (some d) → 1 ≤ d ∧ d ≤ r * r) :
+    Sem (formula r puzzle vid) FEnv.empty σ ↔ ∃ g, ValidGrid r puzzle g ∧ Encodes r vid σ g := by
+  rw [sem_formula_iff, constraints_iff, sem_hints_iff]
+  constructor
+  · rintro ⟨hh, hcell, hrow, hcol, hbox⟩
+    have hex : ∀ c, c < r * r * (r * r) → ∃ a, a < r * r ∧ σ (vid c (a + 1)) = true :=
+      fun c hc => ((trueCount_range_eq_one _ _ _).mp (hcell c hc)).1
+    have huniq : ∀ c, c < r * r * (r * r) → ∀ a b, a < r * r → b < r * r →
+        σ (vid c (a + 1)) = true → σ (vid c (b + 1)) = true → a = b := by
+      intro c hc a b ha hb sa sb
+      have h2 := ((trueCount_range_eq_one _ _ _).mp (hcell c hc)).2
+      rcases Nat.lt_trichotomy a b with h | h | h
+      · exact absurd ⟨sa, sb⟩ (h2 a b h hb)
+      · exact h
+      · exact absurd ⟨sb, sa⟩ (h2 b a h ha)
+    let g : Nat → Nat := fun c =>
+      if h : ∃ a, a < r * r ∧ σ (vid c (a + 1)) = true then Classical.choose h + 1 else 0
+    have hg : ∀ c, c < r * r * (r * r) → ∃ a, a < r * r ∧ σ (vid c (a + 1)) = true ∧ g c = a + 1 := by
+      intro c hc
+      have h := hex c hc
+      refine ⟨Classical.choose h, (Classical.choose_spec h).1, (Classical.choose_spec h).2, ?_⟩
+      simp only [g, h, dif_pos]
+    have henc : Encodes r vid σ g := by
+      intro c d0 hc hd
+      obtain ⟨a, ha, sa, ga⟩ := hg c hc
+      constructor
+      · intro sd
+        rw [ga, huniq c hc a d0 ha hd sa sd]
+      · intro gd
+        have : a = d0 := by omega
+        rw [← this]; exact sa
+    refine ⟨g, ⟨?_, ?_, ?_, ?_, ?_⟩, henc⟩
+    · intro c hc
+      obtain ⟨a, ha, _, ga⟩ := hg c hc
+      omega
+    · intro i d0 hi hd
+      rw [← count_transfer henc (fun j => i * (r * r) + j) (fun j hj => cell_lt hi hj) d0 hd]
+      exact hrow i d0 hi hd
+    · intro i d0 hi hd
+      rw [← count_transfer henc (fun j => j * (r * r) + i) (fun j hj => cell_lt hj hi) d0 hd]
+      exact hcol i d0 hi hd
+    · intro bi bj d0 hbi hbj hd
+      rw [← count_transfer henc (fun l => (bi * r + l / r) * (r * r) + (bj * r + l % r))
+        (fun l hl => cell_lt (box_pos_lt hbi hl) (box_pos_lt' hbj hl)) d0 hd]
+      exact hbox bi bj d0 hbi hbj hd
+    · intro c d hc hp
+      obtain ⟨h1, h2⟩ := hscope c d hc hp
+      have := hh c d hc hp
+      have e : d = (d - 1) + 1 := by omega
+      rw [e] at this ⊢
+      exact (henc c (d - 1) hc (by omega)).mp this
+  · rintro ⟨g, ⟨hrange, hrow, hcol, hbox, hgiv⟩, henc⟩
+    refine ⟨?_, ?_, ?_, ?_, ?_⟩
+    · intro i d hi hp
+      obtain ⟨h1, h2⟩ := hscope i d hi hp
+      have e : d = (d - 1) + 1 := by omega
+      rw [e]
+      exact (henc i (d - 1) hi (by omega)).mpr (by rw [hgiv i d hi hp]; exact e)
+    · intro c hc
+      obtain ⟨h1, h2⟩ := hrange c hc
+      rw [trueCount_range_eq_one]
+      constructor
+      · exact ⟨g c - 1, by omega, (henc c (g c - 1) hc (by omega)).mpr (by omega)⟩
+      · rintro a b hab hb ⟨sa, sb⟩
+        have ea := (henc c a hc (by omega)).mp sa
+        have eb := (henc c b hc hb).mp sb
+        omega
+    · intro i d0 hi hd
+      rw [count_transfer henc (fun j => i * (r * r) + j) (fun j hj => cell_lt hi hj) d0 hd]
+      exact hrow i d0 hi hd
+    · intro i d0 hi hd
+      rw [count_transfer henc (fun j => j * (r * r) + i) (fun j hj => cell_lt hj hi) d0 hd]
+      exact hcol i d0 hi hd
+    · intro bi bj d0 hbi hbj hd
+      rw [count_transfer henc (fun l => (bi * r + l / r) * (r * r) + (bj * r + l % r))
+        (fun l hl => cell_lt (box_pos_lt hbi hl) (box_pos_lt' hbj hl)) d0 hd]
+      exact hbox bi bj d0 hbi hbj hd
+
+/-- one-to-one, first half: an assignment encodes at most one grid -/
+theorem grid_unique {r : Nat} {vid : Nat → Nat → Nat} {σ : Asg} {givens : List (Option Nat)} {g g' : Nat → Nat}
+    (hv : ValidGrid r givens g)
+    (h : Encodes r vid σ g) (h' : Encodes r vid σ g') : ∀ c, c < r * r * (r * r) → g c = g' c := by
+  intro c hc
+  obtain ⟨h1, h2⟩ := hv.1 c hc
+  have := (h c (g c - 1) hc (by omega)).mpr (by omega)
+  have := (h' c (g c - 1) hc (by omega)).mp this
+  omega
+
+/-- one-to-one, second half: a grid determines the assignment on every variable the formula mentions -/
+theorem asg_unique {r : Nat} {vid : Nat → Nat → Nat} {σ σ' : Asg} {g : Nat → Nat}
+    (h : Encodes r vid σ g) (h' : Encodes r vid σ' g) :
+    ∀ c d0, c < r * r * (r * r) → d0 < r * r → σ (vid c (d0 + 1)) = σ' (vid c (d0 + 1)) := by
+  intro c d0 hc hd
+  rw [Bool.eq_iff_iff]
+  exact (h c d0 hc hd).trans (h' c d0 hc hd).symm
+
+/-- every completed grid has its assignment (distinct (cell, number) pairs are distinct variables) -/
+theorem grid_has_model (r : Nat) (vid : Nat → Nat → Nat) (g : Nat → Nat)
+    (hinj : ∀ c d c' d', vid c d = vid c' d' → c = c' ∧ d = d') :
+    ∃ σ, Encodes r vid σ g := by
+  classical
+  refine ⟨fun x => decide (∃ c, vid c (g c) = x), ?_⟩
+  intro c d0 hc hd
+  simp only [decide_eq_true_eq]
+  constructor
+  · rintro ⟨c', e⟩
+    obtain ⟨e1, e2⟩ := hinj _ _ _ _ e
+    subst e1; exact e2
+  · intro e; exact ⟨c, by rw [e]⟩
+
+
+theorem formula_good (r : Nat) (puzzle : List (Option Nat)) (vid : Nat → Nat → Nat) :
+    GoodF (formula r puzzle vid) ∧ C01.NoFix (formula r puzzle vid) := by
+  unfold formula
+  have key : ∀ f ∈ hints r puzzle vid ++ cellConstraints r vid ++ rowColConstraints r vid ++ boxConstraints r vid,
+      GoodF f ∧ C01.NoFix f := by
+    intro f hf
+    have hex : ∀ cells : List (Nat × Nat), GoodF (exactlyOne vid cells) ∧ C01.NoFix (exactlyOne vid cells) := by
+      intro cells
+      have h2 : (cells.map (fun x => match x with | (c, d) => Formula.var (vid c d))) =
+          (cells.map (fun p => vid p.1 p.2)).map Formula.var := by
+        rw [List.map_map]; apply List.map_congr_left; intro p _; rfl
+      simp only [exactlyOne, GoodF, C01.NoFix, h2]
+      exact ⟨goodFL_map_var _, noFixL_map_var _⟩
+    simp only [List.mem_append] at hf
+    rcases hf with ((hf | hf) | hf) | hf
+    · obtain ⟨i, d, _, _, rfl⟩ := (hints_spec r puzzle vid f).mp hf
+      simp [GoodF, C01.NoFix]
+    · simp only [cellConstraints, List.mem_map] at hf
+      obtain ⟨i, _, rfl⟩ := hf; exact hex _
+    · simp only [rowColConstraints, List.mem_flatMap, List.mem_cons, List.not_mem_nil, or_false] at hf
+      obtain ⟨i, _, k, _, rfl | rfl⟩ := hf <;> exact hex _
+    · simp only [boxConstraints, List.mem_flatMap, List.mem_map] at hf
+      obtain ⟨i, _, j, _, k, _, rfl⟩ := hf; exact hex _
+  exact ⟨goodF_conj _ (fun f hf => (key f hf).1), noFix_conj _ (fun f hf => (key f hf).2)⟩
+
+/-- solving the emitted formula with rsbdd: the evaluator returns, and the diagram it returns is
+true exactly on the encodings of the puzzle's solutions -/
+theorem sudoku_solved (r : Nat) (puzzle : List (Option Nat)) (vid : Nat → Nat → Nat)
+    (hscope : ∀ c d, c < r * r * (r * r) → puzzle[c]? = some (some d) → 1 ≤ d ∧ d ≤ r * r) (iters : Nat) :
+    let f := formula r puzzle vid
+    ∃ b, Formula.evalF iters (Formula.depth f) f = some b ∧ ROBDD b ∧
+      ∀ σ, (eval b σ = true ↔ ∃ g, ValidGrid r puzzle g ∧ Encodes r vid σ g) := by
+  intro f
+  obtain ⟨b, hb, hr, hs⟩ := solved f (formula_good ..).1 (formula_good ..).2 iters
+  exact ⟨b, hb, hr, fun σ => (hs σ).trans (sudoku_models r puzzle vid σ hscope)⟩
+
+-- non-vacuity: the solved 4×4 grid is a valid grid for a puzzle showing its first cell
+example : ValidGrid 2 [some 1] (fun c => [1, 2, 3, 4, 3, 4, 1, 2, 2, 1, 4, 3, 4, 3, 2, 1].getD c 0) := by
+  have h2 : ∀ i, i < 2 * 2 → ∀ d0, d0 < 2 * 2 → ((List.range (2 * 2)).filter (fun j =>
+      [1, 2, 3, 4, 3, 4, 1, 2, 2, 1, 4, 3, 4, 3, 2, 1].getD (i * (2 * 2) + j) 0 == d0 + 1)).length = 1 := by decide
+  have h3 : ∀ i, i < 2 * 2 → ∀ d0, d0 < 2 * 2 → ((List.range (2 * 2)).filter (fun j =>
+      [1, 2, 3, 4, 3, 4, 1, 2, 2, 1, 4, 3, 4, 3, 2, 1].getD (j * (2 * 2) + i) 0 == d0 + 1)).length = 1 := by decide
+  have h4 : ∀ bi, bi < 2 → ∀ bj, bj < 2 → ∀ d0, d0 < 2 * 2 → ((List.range (2 * 2)).filter (fun l =>
+      [1, 2, 3, 4, 3, 4, 1, 2, 2, 1, 4, 3, 4, 3, 2, 1].getD ((bi * 2 + l / 2) * (2 * 2) + (bj * 2 + l % 2)) 0 == d0 + 1)).length = 1 := by
+    decide
+  refine ⟨by decide, fun i d0 hi hd => h2 i hi d0 hd, fun i d0 hi hd => h3 i hi d0 hd,
+    fun bi bj d0 hbi hbj hd => h4 bi hbi bj hbj d0 hd, ?_⟩
+  intro c d hc hp
+  match c, hc with
+  | 0, _ => simp at hp; simp [hp.symm]
+  | c + 1, _ => simp at hp
 
 end Rsbdd.C17
